@@ -5,6 +5,7 @@ import MuduoVerif.Proofs.ConnFault
 import MuduoVerif.Proofs.ConnNoDiscard
 import MuduoVerif.Proofs.Acceptor
 import MuduoVerif.Generated.Client
+import MuduoVerif.Proofs.SysSkelTie
 /-!
 # C11 — transient socket faults delay service but never corrupt, wedge or leak
 
@@ -397,5 +398,42 @@ example :
        .userClosed 1, .idleClosed] ∧
     (Acceptor.run {} ins).held = [3] ∧ (Acceptor.run {} ins).opened = 5 ∧ (Acceptor.run {} ins).closedN = 4 := by
   decide
+
+/-! ## T1, the socket primitives -/
+
+/-- T1, the I/O primitives are single system calls.  The models take the result of every `write`, `readv`, `read`,
+`accept`, `connect`, `SO_ERROR` query as ONE environment input and `close` / `shutdown(SHUT_WR)` as one event; that is
+what the wrappers of `SocketsOps.cc` / `Socket.cc` do in /repo's current sources (`Generated/SysSkel.lean`, re-extracted
+on every run; `Proofs/SysSkelTie.lean`): `sockets::write/read/readv/connect` are exactly one system call with the
+arguments passed through and the result returned unchanged (`SysSkel.passThrough`: no retry, no loop, no rewriting of a
+short count or of `errno` - the assumption behind `Conn.WriteRes`, `Conn.ReadRes`, `Client.envConnect`);
+`sockets::close` / `sockets::shutdownWrite` are one `close` / one `shutdown(.., SHUT_WR)` whose failure is only logged;
+`sockets::getSocketError` is one `getsockopt(SOL_SOCKET, SO_ERROR)` returning `optval` (or `errno` when the query
+fails); `sockets::accept` is one `accept4(.., SOCK_NONBLOCK | SOCK_CLOEXEC)` followed, on failure, by the errno `switch`
+whose label groups are `Gen.Acceptor.acceptTable` - the table `Acceptor.handleRead` classifies with (`class_accept`) -
+and `Socket::accept` hands that result through, storing the peer address only on success. -/
+theorem io_primitives_are_single_syscalls :
+    Gen.SysSkel.socketsWrite = SysSkel.passThrough "write" "sockfd, buf, count" ∧
+    Gen.SysSkel.socketsRead = SysSkel.passThrough "read" "sockfd, buf, count" ∧
+    Gen.SysSkel.socketsReadv = SysSkel.passThrough "readv" "sockfd, iov, iovcnt" ∧
+    Gen.SysSkel.socketsConnect = SysSkel.passThrough "connect" "sockfd, addr, sizeof(sockaddr_in6)" ∧
+    Gen.SysSkel.socketsClose =
+      [.act (.sys "close" "sockfd"), .ite "<result> < 0" [.act (.log .syserr)] []] ∧
+    Gen.SysSkel.socketsShutdownWrite =
+      [.act (.sys "shutdown" "sockfd, SHUT_WR"), .ite "<result> < 0" [.act (.log .syserr)] []] ∧
+    Gen.SysSkel.socketShutdownWrite = [.act (.call "sockets::shutdownWrite" "sockfd_")] ∧
+    Gen.SysSkel.getSocketError =
+      [.act (.assign "optlen" "sizeof(optval)"), .act (.sys "getsockopt" "sockfd, 1, 4, &optval, &optlen"),
+       .ite "<result> < 0" [.act (.ret "errno")] [.act (.ret "optval")]] ∧
+    Gen.SysSkel.socketsAccept = SysSkel.Decl.socketsAccept ∧
+    Gen.SysSkel.socketAccept = SysSkel.Decl.socketAccept ∧
+    SysSkel.labelGroups SysSkel.acceptSwitchBody =
+      [ (Gen.Acceptor.acceptTable.filter (fun e => e.2 = .expected)).map (fun e => toString e.1),
+        (Gen.Acceptor.acceptTable.filter (fun e => e.2 = .unexpected)).map (fun e => toString e.1),
+        ["default"] ] :=
+  ⟨SysSkel.skeleton_socketsWrite, SysSkel.skeleton_socketsRead, SysSkel.skeleton_socketsReadv,
+   SysSkel.skeleton_socketsConnect, SysSkel.skeleton_socketsClose, SysSkel.skeleton_socketsShutdownWrite,
+   SysSkel.skeleton_socketShutdownWrite, SysSkel.skeleton_getSocketError, SysSkel.skeleton_socketsAccept,
+   SysSkel.skeleton_socketAccept, SysSkel.accept_switch_is_acceptTable.1⟩
 
 end MuduoVerif.C11
